@@ -4,7 +4,7 @@ import (
 	"context"
 	"encoding/base64"
 	"errors"
-	"net"
+	"io"
 
 	"mellium.im/sasl"
 	"mellium.im/xmpp"
@@ -31,8 +31,8 @@ const (
 	tlsNS     = hspeer.NSTLS
 )
 
-func callSASLBindInit(ws bool, withBind bool) func(ctx context.Context, conn net.Conn, log *hspeer.Log) (*xmpp.Session, error) {
-	return func(ctx context.Context, conn net.Conn, log *hspeer.Log) (*xmpp.Session, error) {
+func callSASLBindInit(ws bool, withBind bool) func(ctx context.Context, conn io.ReadWriter, log *hspeer.Log) (*xmpp.Session, error) {
+	return func(ctx context.Context, conn io.ReadWriter, log *hspeer.Log) (*xmpp.Session, error) {
 		fs := []xmpp.StreamFeature{xmpp.SASL("", "pw", sasl.Plain)}
 		if withBind {
 			fs = append(fs, xmpp.BindResource())
@@ -42,8 +42,8 @@ func callSASLBindInit(ws bool, withBind bool) func(ctx context.Context, conn net
 	}
 }
 
-func callSASLBindRecv(ws bool, bind xmpp.StreamFeature) func(ctx context.Context, conn net.Conn, log *hspeer.Log) (*xmpp.Session, error) {
-	return func(ctx context.Context, conn net.Conn, log *hspeer.Log) (*xmpp.Session, error) {
+func callSASLBindRecv(ws bool, bind xmpp.StreamFeature) func(ctx context.Context, conn io.ReadWriter, log *hspeer.Log) (*xmpp.Session, error) {
+	return func(ctx context.Context, conn io.ReadWriter, log *hspeer.Log) (*xmpp.Session, error) {
 		fs := hspeer.InstrumentAll(log, xmpp.SASLServer(perm, sasl.Plain), bind)
 		return xmpp.ReceiveSession(ctx, conn, xmpp.Secure, negotiatorFor(ws, fs))
 	}
@@ -64,6 +64,84 @@ func saslOnlyInit(ws bool) *handshake {
 			hspeer.Step{Want: []string{first(ws)}, Reply: hspeer.Say(srvHeader(ws, "s2") + hspeer.Features(ws, ""))},
 		)
 		a.call = callSASLBindInit(ws, false)
+		return a
+	}}
+}
+
+// twoStep is a SASL mechanism with one challenge round trip:
+// C: hello  S: prove-it  C: proof  S: success.
+var twoStep = sasl.Mechanism{
+	Name: "X-VERIF-TWOSTEP",
+	Start: func(*sasl.Negotiator) (bool, []byte, interface{}, error) {
+		return true, []byte("hello"), nil, nil
+	},
+	Next: func(m *sasl.Negotiator, challenge []byte, _ interface{}) (bool, []byte, interface{}, error) {
+		if m.State()&sasl.Receiving == 0 {
+			if string(challenge) != "prove-it" {
+				return false, nil, nil, sasl.ErrInvalidChallenge
+			}
+			return false, []byte("proof"), nil, nil
+		}
+		switch m.State() & sasl.StepMask {
+		case sasl.AuthTextSent:
+			if string(challenge) != "hello" {
+				return false, nil, nil, sasl.ErrInvalidChallenge
+			}
+			return true, []byte("prove-it"), nil, nil
+		default:
+			if string(challenge) != "proof" {
+				return false, nil, nil, sasl.ErrAuthn
+			}
+			return false, nil, nil, nil
+		}
+	},
+}
+
+const twoStepMechs = `<mechanisms xmlns='` + hspeer.NSSASL + `'><mechanism>X-VERIF-TWOSTEP</mechanism></mechanisms>`
+
+// saslChal: SASL with a challenge round trip, then bind.
+func saslChal(ws, recv bool) *handshake {
+	name := "saslchal-init"
+	if recv {
+		name = "saslchal-recv"
+	}
+	if ws {
+		name = "ws-" + name
+	}
+	sn := hspeer.NSSASL
+	if !recv {
+		return &handshake{Name: name, Role: "init", Expect: "ok", New: func() *attempt {
+			a := &attempt{}
+			a.peer = hspeer.NewPeer(
+				hspeer.Step{Want: []string{first(ws)}, Reply: hspeer.Say(srvHeader(ws, "s1") + hspeer.Features(ws, twoStepMechs))},
+				hspeer.Step{Want: []string{"auth"}, Reply: hspeer.Say(`<challenge xmlns='` + sn + `'>` + b64("prove-it") + `</challenge>`)},
+				hspeer.Step{Want: []string{"response"}, Reply: hspeer.Say(hspeer.El(sn, "success"))},
+				hspeer.Step{Want: []string{first(ws)}, Reply: hspeer.Say(srvHeader(ws, "s2") + hspeer.Features(ws, bindAd))},
+				hspeer.Step{Want: []string{"iq"}, Reply: func(chunk []byte) string {
+					id, _ := hspeer.Attr(chunk, "iq", "id")
+					return `<iq` + iqNS(ws) + ` type='result' id='` + hspeer.Esc(id) + `'><bind xmlns='` + hspeer.NSBind + `'><jid>` + client + `</jid></bind></iq>`
+				}},
+			)
+			a.call = func(ctx context.Context, conn io.ReadWriter, log *hspeer.Log) (*xmpp.Session, error) {
+				fs := hspeer.InstrumentAll(log, xmpp.SASL("", "pw", twoStep), xmpp.BindResource())
+				return xmpp.NewSession(ctx, serverJID, clientJID, conn, xmpp.Secure, negotiatorFor(ws, fs))
+			}
+			return a
+		}}
+	}
+	return &handshake{Name: name, Role: "recv", Expect: "ok", New: func() *attempt {
+		a := &attempt{}
+		a.peer = hspeer.NewPeer(
+			hspeer.Step{Want: nil, Reply: hspeer.Say(cliHeader(ws))},
+			hspeer.Step{Want: []string{first(ws), "features"}, Reply: hspeer.Say(`<auth xmlns='` + sn + `' mechanism='X-VERIF-TWOSTEP'>` + b64("hello") + `</auth>`)},
+			hspeer.Step{Want: []string{"challenge"}, Reply: hspeer.Say(`<response xmlns='` + sn + `'>` + b64("proof") + `</response>`)},
+			hspeer.Step{Want: []string{"success"}, Reply: hspeer.Say(cliHeader(ws))},
+			hspeer.Step{Want: []string{first(ws), "features"}, Reply: hspeer.Say(`<iq` + iqNS(ws) + ` type='set' id='b1'><bind xmlns='` + hspeer.NSBind + `'><resource>res</resource></bind></iq>`)},
+		)
+		a.call = func(ctx context.Context, conn io.ReadWriter, log *hspeer.Log) (*xmpp.Session, error) {
+			fs := hspeer.InstrumentAll(log, xmpp.SASLServer(func(*sasl.Negotiator) bool { return true }, twoStep), xmpp.BindResource())
+			return xmpp.ReceiveSession(ctx, conn, xmpp.Secure, negotiatorFor(ws, fs))
+		}
 		return a
 	}}
 }
@@ -111,7 +189,7 @@ func startTLSReply(name, note, reply string) *handshake {
 			hspeer.Step{Want: []string{"stream"}, Reply: hspeer.Say(srvHeader(false, "s1") + hspeer.Features(false, startTLSAd))},
 			hspeer.Step{Want: []string{"starttls"}, Reply: hspeer.Say(reply)},
 		)
-		a.call = func(ctx context.Context, conn net.Conn, log *hspeer.Log) (*xmpp.Session, error) {
+		a.call = func(ctx context.Context, conn io.ReadWriter, log *hspeer.Log) (*xmpp.Session, error) {
 			fs := hspeer.InstrumentAll(log, xmpp.StartTLS(clientTLS()), xmpp.SASL("", "pw", sasl.Plain), xmpp.BindResource())
 			return xmpp.NewSession(ctx, serverJID, clientJID, conn, 0, xmpp.NewNegotiator(cfgOf(fs)))
 		}
@@ -154,7 +232,7 @@ func componentReply(name, note, header, reply string) *handshake {
 			hspeer.Step{Want: []string{"stream"}, Reply: hspeer.Say(header)},
 			hspeer.Step{Want: []string{"handshake"}, Reply: hspeer.Say(reply)},
 		)
-		a.call = func(ctx context.Context, conn net.Conn, log *hspeer.Log) (*xmpp.Session, error) {
+		a.call = func(ctx context.Context, conn io.ReadWriter, log *hspeer.Log) (*xmpp.Session, error) {
 			return component.NewSession(ctx, compJID, []byte("secret"), conn)
 		}
 		return a
@@ -175,6 +253,7 @@ func refusalHandshakes() []*handshake {
 	std := func() xmpp.StreamFeature { return xmpp.BindResource() }
 	hs := []*handshake{
 		saslOnlyInit(false), saslOnlyInit(true),
+		saslChal(false, false), saslChal(true, false), saslChal(false, true), saslChal(true, true),
 
 		// --- bind, initiating side
 		bindReply("bind-error-init", "refused", "error iq with an <error/> payload", func(id string) string {
